@@ -32,7 +32,7 @@ ASSUMPTIONS = [
     "a recomputed loss within 1e-12 relative of the recorded one counts as equal (BLAS summation order may depend on buffer alignment); counted as loss_ulp_wobble",
     "third-party estimator failures on extreme histories end the run early (counted), they are C11's subject, not C02's",
 ]
-REQUIRED_COUNTERS = {"cases_with_as_many_periods_as_variables": 1, "batch_size_changed_between_calls": 3, "runs_converging_every_batch": 5, "rl_scheduled_runs": 5, "failed_batches_then_continued": 5, "model_invocations_matched": 200, "runs_with_repeated_proposals": 5, "runs_with_tied_losses": 4, "runs": 30, "rows_checked": 200, "members_decoded": 300, "losses_recomputed": 200, "snapshots": 100,
+REQUIRED_COUNTERS = {"cases_with_as_many_periods_as_variables": 1, "batch_size_changed_between_calls": 3, "runs_converging_every_batch": 5, "rl_scheduled_runs": 3, "failed_batches_then_continued": 5, "model_invocations_matched": 200, "runs_with_repeated_proposals": 5, "runs_with_tied_losses": 4, "runs": 30, "rows_checked": 200, "members_decoded": 300, "losses_recomputed": 200, "snapshots": 100,
                      "multi_call_runs": 10, "extreme_runs": 5, "tile_repeat_distinguishable": 5}
 SHARDS = {"quick": 16, "thorough": 16}
 SHARD_WATCHDOG = {"quick": 1500, "thorough": 10800}
